@@ -56,7 +56,15 @@ func (m *MessageCopyFromGenerator) Generate(writer io.Writer) (int, error) {
 func (m *MessageCopyFromGenerator) GenerateFields(g *j.Group) {
 	// Reset all oneOf fields in advance, otherwise if all oneOf branches would be null in the passed
 	// object, the oneOf field won't be nil
-	for _, m := range m.OneOfNames {
+	oneOfNames := append([]string{}, m.OneOfNames...)
+	// OneOfs of the embedded messages are flattened into this message together with their fields
+	// (a nullable embedded message might be nil, its fields can not be reset through it)
+	for _, f := range m.Fields {
+		if f.OneOfName != "" && !f.ParentIsOptionalEmbed && !contains(oneOfNames, f.OneOfName) {
+			oneOfNames = append(oneOfNames, f.OneOfName)
+		}
+	}
+	for _, m := range oneOfNames {
 		g.Add(j.Id("obj." + m).Op("=").Nil())
 	}
 
@@ -67,6 +75,16 @@ func (m *MessageCopyFromGenerator) GenerateFields(g *j.Group) {
 		}
 		g.Add(NewFieldCopyFromGenerator(f, m.i).Generate())
 	}
+}
+
+// contains returns true if s contains v
+func contains(s []string, v string) bool {
+	for _, e := range s {
+		if e == v {
+			return true
+		}
+	}
+	return false
 }
 
 // Generate generates CopyFrom fragment for a field of different kind
